@@ -1393,15 +1393,6 @@ print(json.dumps(res))
             c.violation("persisted-argument:exact_finish_time", "integrate(0.05%s) with the field previously %d: C exact_finish_time = %d (expected %d), t = %r" % ("" if efv is None else ", exact_finish_time=%d" % efv, 1 - want, raw_, want, sim.t),
                         {"python": "sim.exact_finish_time = %d; sim.integrate(0.05%s)" % (1 - want, "" if efv is None else ", exact_finish_time=%d" % efv), "c_value": raw_})
         del sim
-    for seed in (7, 0, 4000000001):
-        sim = mksim(2)
-        sim.init_megno(seed=seed)
-        raw_ = int.from_bytes(rd(ctypes.addressof(sim) + cmember(cs, SIMST, "rand_seed")["off"], 4), "little")
-        dim["defaults_persisted_in_struct"] += 1
-        c.count(("seed", seed))
-        if raw_ != seed or sim.rand_seed != seed:
-            c.violation("persisted-argument:init_megno.seed", "init_megno(seed=%d): C rand_seed = %d, Python reads %r" % (seed, raw_, sim.rand_seed), {"python": "sim.init_megno(seed=%d)" % seed})
-        del sim
     sim = rebound.Simulation()
     sim.configure_box(6.5, 2, 3, 4)
     for mname, want in (("N_root_x", 2), ("N_root_y", 3), ("N_root_z", 4), ("N_root", 24)):
@@ -1459,7 +1450,7 @@ print(json.dumps(res))
     sim.pre_timestep_modifications = lambda s_: calls.update(["pre_timestep_modifications"])
     sim.post_timestep_modifications = lambda s_: calls.update(["post_timestep_modifications"])
     sim.heartbeat = lambda s_: calls.update(["heartbeat"])
-    sim.steps(3)
+    sim.integrate(sim.t + 3.5 * sim.dt, exact_finish_time=0)
     for p_ in ("additional_forces", "pre_timestep_modifications", "post_timestep_modifications", "heartbeat"):
         dim["callbacks_invoked_by_C"] += 1
         c.count(("cb-invoked", p_))
@@ -1467,11 +1458,11 @@ print(json.dumps(res))
             c.violation("callback-invoked:" + p_, "sim.%s installed from Python was called %d times in 3 steps" % (p_, calls[p_]), {"python": "sim.%s = f; sim.steps(3)" % p_, "calls": dict(calls)})
     sim.heartbeat = 0
     n0 = calls["heartbeat"]
-    sim.steps(2)
+    sim.integrate(sim.t + 2.5 * sim.dt, exact_finish_time=0)
     if calls["heartbeat"] != n0:
         c.violation("callback-clear:heartbeat", "heartbeat cleared with 0 is still called", {})
     del sim
-    sim = mksim(2)
+    sim = mksim(3)
     sim.integrator = "mercurius"
     lcalls = []
     sim.ri_mercurius.L = lambda s_, d_, dc_: (lcalls.append(1), 1.0)[1]
@@ -1501,20 +1492,26 @@ print(json.dumps(res))
         setattr(obj_, attr, newv)
         if rd(addr, m_["size"]) != enc(k, newv):
             c.violation("subobject-after-reset:%s.%s" % (cname_, attr), "writing held %s.%s after reset_integrator() does not reach the C member" % (path_[0], attr), {})
+    w.kernel = "lazy"
     sim.integrator = "ias15"
     sim.steps(1)
     sim.integrator = "whfast"
+    sim.steps(1)
     if w.kernel != "lazy" or int.from_bytes(rd(ctypes.addressof(sim) + absoff(["ri_whfast", "kernel"]), 4), "little") != 3:
         c.violation("subobject-after-reset:IntegratorWHFast.kernel", "kernel 'lazy' set before integrator switches reads %r" % (w.kernel,), {})
     del w, ia, sim
 
     # ---- (8) copy / deepcopy / pickle / archive restore: the new Python object mirrors its own C bytes, names survive
-    src = mksim(3, "whfast")
+    src = rebound.Simulation()
+    src.units = ("AU", "yr", "Msun")
+    src.add(m=1.)
+    src.add(m=1e-3, a=1.7, e=0.05, inc=0.02)
+    src.add(m=2e-3, a=2.4, e=0.1, inc=0.04)
+    src.integrator, src.dt = "whfast", 0.01
     src.ri_whfast.kernel, src.ri_whfast.coordinates, src.ri_whfast.corrector = "lazy", "whds", 7
     src.ri_saba.type, src.ri_eos.phi0, src.ri_eos.phi1 = "cl4", "lf8", "pmlf4"
     src.gravity, src.collision, src.boundary = "compensated", "direct", "open"
     src.configure_box(50.)
-    src.units = ("AU", "yr", "Msun")
     src.N_active, src.softening, src.exit_max_distance, src.rand_seed = 2, 0.125, 77.5, 4000000002
     src.particles[1].hash = "b"
     src.steps(2)
